@@ -58,7 +58,10 @@ def _bath_invariant(self):
                     f"{dev_u:.2e}", {"dev": dev_u})
     # (Bath regards operators that are diagonal up to numpy.allclose's
     # tolerance as diagonal; off-diagonal residues below that are not judged)
-    if dev_im > 1e-10 or offd > 1e-7:
+    # (thresholds relative to the magnitude of the operator, which may be
+    # given in any unit)
+    mag = max(1.0, float(np.abs(dmat).max()))
+    if dev_im > 1e-10 * mag or offd > 1e-7 * mag:
         REC.violate("bath-eigenvalues",
                     f"diagonalised coupling operator not real diagonal "
                     f"(imag {dev_im:.2e}, offdiag {offd:.2e})")
